@@ -38,11 +38,14 @@ class GenDoc:
         self.flags = set()
         self.nl = '\n'
         self.final_nl = True
+        self.blank_before = set()   # indices into lines: a blank line stands before that line (no stage, no row)
 
     @property
     def text(self):
         out = []
-        for kind, payload in self.lines:
+        for k, (kind, payload) in enumerate(self.lines):
+            if k in self.blank_before:
+                out.append('')
             out.append(payload if kind == 'global' else '\t'.join(c.text for c in payload))
         t = self.nl.join(out)
         return t + (self.nl if self.final_nl else '')
@@ -73,7 +76,7 @@ def _data_cell(rng, htype, spine, p_null=0.15, chords=True, rest_in_chord=0.03):
 
 def gen_doc(rng, *, kern_only=False, max_spines=4, splits=True, core=False, comments=True, measures=None,
             mid_signatures=True, opening_barline=None, final_barline=None, chords=True, free_headers=False,
-            hidden_barlines=False, force_clef=False, plain_acc=False, rest_in_chord=0.03, clef_in_split=0.0, nested=0.5, early_end=0.0, types=None, twins=0.15, bboxes=0.0):
+            hidden_barlines=False, force_clef=False, plain_acc=False, rest_in_chord=0.03, clef_in_split=0.0, nested=0.5, early_end=0.0, types=None, twins=0.15, bboxes=0.1, blanks=0.08):
     """core=True: signatures only before the first measure, splits re-joined before the next barline (C08's core)"""
     g = GenDoc()
     tokens.PLAIN_ACC = plain_acc
@@ -271,6 +274,11 @@ def gen_doc(rng, *, kern_only=False, max_spines=4, splits=True, core=False, comm
             for fc in rng.sample(frees, min(len(frees), rng.randint(1, 2))):
                 fc.text = rng.choice(notes).text
             g.flags.add('twins')
+    # blank lines (also before the first line): they are skipped by both line readers and must shift nothing
+    if blanks and rng.random() < blanks:
+        for _ in range(rng.randint(1, 2)):
+            g.blank_before.add(rng.randrange(len(g.lines)))
+        g.flags.add('blank-line')
     return g
 
 
